@@ -212,8 +212,10 @@ def main(tier, seed):
         batches.append({"kind": "pairs", "i": i, "m": m, "nrand": 20 if q else 12000, "seed": seed * 31337 + 100 + i})
     for i in range(2 if q else 48):
         batches.append({"kind": "generic", "n": 3000 if q else 20000, "seed": seed * 31337 + 200 + i})
-    for i in range(3 if q else 16):
-        batches.append({"real": [{"kind": "app", "seed": seed * 389 + i * 23 + j, "judge": "decoration"} for j in range(1 if q else 4)]})
+    for i in range(3 if q else 40):
+        # one execution per worker process: Bromelia.run() leaves a Manager and a worker process behind that a second run in the
+        # same interpreter cannot share
+        batches.append({"real": [{"kind": "app", "seed": seed * 389 + i * 23, "judge": "decoration"}]})
     acc = harness.run_workers("checks.c12_decorate_answer", "run_batch", batches, 1500)
     return harness.finish(PROP, tier, seed, "exploration", acc, RULE,
                           ["multiples of 1000 and answers carrying both Result-Code and Experimental-Result are not judged for the E flag",
